@@ -258,6 +258,31 @@ def datatype_scrutinee_rule(ctx, an, prog, rule, path, enum_path):
     ctx.ob(rule, path, "scrutinee-is-discriminant", bool(ok), why)
 
 
+FN_CALL_NAMES = ("std::ops::FnMut::call_mut", "core::ops::FnMut::call_mut", "std::ops::FnOnce::call_once", "core::ops::FnOnce::call_once",
+                 "std::ops::Fn::call", "core::ops::Fn::call")
+
+
+def _term_consumers(an, prog, lay, term, cn, depth):
+    """Wire consumers of a parser term (layout.py): primitives and takes below map / map_res / complete wrappers;
+    a crate parser function contributes what its own body consumes."""
+    k = term[0]
+    if k == "prim":
+        return [("prim", term[2], term[3], term[1])]
+    if k == "take":
+        return [("take", cn(term[1]), "nom::bytes::%s::take" % term[2])]
+    if k in ("map", "mapres", "complete", "opt"):
+        return _term_consumers(an, prog, lay, term[1], cn, depth)
+    if k == "closure":
+        return _term_consumers(an, prog, lay, term[2], cn, depth)
+    if k == "struct" and depth < 3:
+        hb = prog.bodies.get(term[2])
+        if hb is not None and "nom_derive::Parse" in term[2]:
+            return [("enum-parser", term[2], -1, -1)]
+        if hb is not None and not hb.derived:
+            return [x for x in _consumers(an, prog, hb, lambda x: True, None, depth + 1)]
+    return [("unknown-term", str(k))]
+
+
 def _consumers(an, prog, body, blocks_pred, argmap, depth=0):
     """Wire-consuming calls made in the selected blocks of `body` (recursing into private helpers, with the
     helper's parameters rewritten to the caller's argument expressions)."""
@@ -269,8 +294,29 @@ def _consumers(an, prog, body, blocks_pred, argmap, depth=0):
             e = peel(an.simp(an.interp.subst(e, argmap)), widen=True)
         return canon(e)
 
+    # combinator values applied to the cursor (`map(be_u32, ..)(i)`, `map(P::parse_field, ..)(i)`): their wire
+    # consumers come from the parser term; the blocks that merely construct the combinator are not counted again
+    applied = {}
+    built_in = set()
+    for cb, tt, c in body.calls():
+        if c is None or not blocks_pred(cb) or c.nsyn not in FN_CALL_NAMES or not tt["args"]:
+            continue
+        from .layout import Layouts
+        lay = Layouts(prog, an)
+        cexpr = peel(an.simp(an.slicer(body).call_expr(cb, tt)))
+        stp = lay.step_of_call(cexpr)
+        if stp is None or stp[0][0] in ("take", "prim", "unknown", "fn"):
+            continue
+        applied[cb] = _term_consumers(an, prog, lay, stp[0], cn, depth)
+        for n in find(cexpr[3][0], lambda n: n[0] == "call"):
+            built_in.add(n[1])
     for cb, tt, c in body.calls():
         if c is None or not blocks_pred(cb):
+            continue
+        if cb in applied:
+            cons.extend(applied[cb])
+            continue
+        if cb in built_in:
             continue
         p = prim_of(c)
         if p:
@@ -491,6 +537,8 @@ def run(ctx, env):
                     ok = c[0] == "prim" and c[1] == w[1] and c[2] == "be"
                 elif w[0] == "take":
                     ok = c[0] == "take" and c[1] == w[1]
+                    if not ok and w[1] == "1_usize":
+                        ok = c[0] == "prim" and c[1] == 1      # one byte read by a u8 primitive instead of take(1)
                 elif w[0] == "datanumber":
                     ok = c[0] == "datanumber" and c[1] == w[1] and c[2] == w[2]
                 elif w[0] == "unknown-helper":
